@@ -152,11 +152,15 @@ def run(s):
     # ---------------- 6. order / case independence of the captured system
     def order_case():
         base = fill_env.symbolic_run("trigonal7", ["c11", "c12", "c13", "c33", "c44", "c14", "c15"], nvol=1, ignore_rank=True, ignore_residuals=True)[0]
+        if base["kind"] != "return":
+            return core.refuted("symnp", "with both ignore flags set the table is refused (%r)" % (base["value"],), witness_id="order-case-raise", replay=native_decision(fill))
         a0, b0 = numpy.asarray(base["proxy"].calls[0]["a"], dtype=float), base["proxy"].calls[0]["b"]
         rows0 = sorted((tuple(a0[i]), str(b0[i][0]).lower()) for i in range(a0.shape[0]))
         for order in (["c15", "c14", "c44", "c33", "c13", "c12", "c11"], ["C11", "c12", "C13", "c33", "C44", "c14", "C15"]):
             cols = [c for c in order]
             r = fill_env.symbolic_run("trigonal7", cols, nvol=1, ignore_rank=True, ignore_residuals=True)[0]
+            if r["kind"] != "return":
+                return core.refuted("symnp", "with both ignore flags set the table is refused (%r)" % (r["value"],), witness_id="order-case-raise", replay=native_decision(fill))
             a1, b1 = numpy.asarray(r["proxy"].calls[0]["a"], dtype=float), r["proxy"].calls[0]["b"]
             rows1 = sorted((tuple(a1[i]), str(b1[i][0]).lower()) for i in range(a1.shape[0]))
             if rows0 != rows1:
